@@ -89,10 +89,12 @@ class ContainerBase:
         """Update all ContainerProperties."""
         if skipped_properties is None:
             skipped_properties = []
-        for prop_name, _ in self.sorted_container_properties():
-            if prop_name not in skipped_properties:
-                new_value = getattr(other_container, prop_name)
-                setattr(self, prop_name, copy.copy(new_value))
+        # read all values before the first one is written: if other_container has not all members (e.g. it is of a
+        # different class), self stays unchanged instead of being updated partially
+        new_values = [(prop_name, getattr(other_container, prop_name))
+                      for prop_name, _ in self.sorted_container_properties() if prop_name not in skipped_properties]
+        for prop_name, new_value in new_values:
+            setattr(self, prop_name, copy.copy(new_value))
 
     def mk_copy(self, copy_node: bool = False) -> ContainerBase:
         """Make a copy of self."""
